@@ -1,0 +1,8 @@
+//go:build !verif
+// +build !verif
+
+package network
+
+// verifAt marks a scheduling point used by the verification harness. Without
+// the "verif" build tag it is an empty function.
+func verifAt(point string, args ...interface{}) {}
